@@ -225,6 +225,37 @@ def work_pair(item):
     return res
 
 
+def work_same(item):
+    """The SAME integrand under two different rules on one subdomain (e.g. a reduced + a full rule of one term): both contributions must be there."""
+    kind, cell, md1, md2, itype, seed = item
+    def fmt(md):
+        return f"{md.get('quadrature_rule', 'default')}{md['quadrature_degree']}"
+
+    res = dict(key=f"same:{cell}:{itype}:{fmt(md1)}+{fmt(md2)}", status="ok", calls=0, maxerr=0.0, failures=[])
+    d = TD[cell]
+    mesh = ufl.Mesh(basix.ufl.element("P", cell, 1, shape=(d,)))
+    V = ufl.FunctionSpace(mesh, basix.ufl.element("P", cell, 1))
+    v = ufl.TestFunction(V)
+    f = ufl.Coefficient(V)
+    x = ufl.SpatialCoordinate(mesh)
+    M = {"dx": ufl.dx, "ds": ufl.ds, "dS": ufl.dS}[itype]
+    integrand = ufl.exp(x[0] + f("+")) * v("-") if itype == "dS" else ufl.exp(x[0] + f) * v
+    form = integrand * M(domain=mesh, metadata=dict(md1)) + integrand * M(domain=mesh, metadata=dict(md2))
+    r = engine.check_form_against_oracle(form, mesh, cell, "affine", "float64", None, seed, entity_mode="quick", instances=("aff",))
+    res["calls"] = r.get("evaluations", 0)
+    res["maxerr"] = r.get("maxerr", 0.0)
+    if r["status"] == "violation":
+        res["status"] = "violation"
+        res["failures"] = [dict(kind=f["kind"], text=f"one integrand under the rules {md1} and {md2} on one subdomain ({cell} {itype}): " + f["text"]) for f in r["failures"][:2]]
+    elif r["status"] == "invalid-c":
+        res["status"] = "violation"
+        res["failures"] = [dict(kind="invalid-c", text=f"one integrand under the rules {md1} and {md2} ({cell} {itype}): generated C does not compile: {r.get('why', '')[-240:]}")]
+    elif r["status"] != "ok":
+        res["status"] = r["status"]
+        res["why"] = r.get("why")
+    return res
+
+
 def work_form(item):
     kind, name, seed = item
     res = dict(key=f"form:{name}", status="ok", calls=0, maxerr=0.0, failures=[])
@@ -251,7 +282,8 @@ def _register():
     for cell in ("interval", "triangle", "tetrahedron", "quadrilateral", "hexahedron", "prism"):
         for nm in ("poly-mass-P2", "poly-stiff-P2", "poly-P3xP1", "poly-facet"):
             FORM_NAMES.append(f"{nm}@{cell}")
-        for nm in ("vertex-dx", "vertex-ds", "vertex+deg2-dx", "vertex+deg2-ds", "deg2+vertex-ds", "quadel1", "quadel3", "quadelGLL", "quadel+deg", "three-rules", "deg2+auto", "auto+deg0", "deg1+auto-facet"):
+        for nm in ("vertex-dx", "vertex-ds", "vertex+deg2-dx", "vertex+deg2-ds", "deg2+vertex-ds", "quadel1", "quadel3", "quadelGLL", "quadel+deg", "three-rules", "deg2+auto", "auto+deg0", "deg1+auto-facet",
+                   "custom-dx", "custom-samepts-dx", "custom+default-samepts-dx", "custom-ds", "vertex+vertex2-ds", "vertex+custom-ds", "default+custom-ds"):
             FORM_NAMES.append(f"{nm}@{cell}")
 
 
@@ -309,6 +341,37 @@ def named_form(name):
         form = qc * ufl.exp(f) * v1 * ufl.dx(domain=mesh, metadata={"quadrature_degree": deg, **({"quadrature_rule": "GLL"} if nm == "quadelGLL" else {})})
         if nm == "quadel+deg":
             form = form + ufl.cos(g) * v1 * ufl.dx(domain=mesh, metadata={"quadrature_degree": 4})
+    elif nm in ("vertex+vertex2-ds", "vertex+custom-ds", "default+custom-ds"):
+        # several integrals of one facet group whose rules are set per integral (vertex / custom schemes): each is on the facet, whatever came before
+        if cell in ("interval", "prism"):
+            raise forms.Inapplicable("point facets / two facet types")
+        ent = oracle.entity_cellname(cell, d - 1, 0)
+        p2, w2 = basix.make_quadrature(oracle.celltype(ent), 3)
+        cmd = {"quadrature_rule": "custom", "quadrature_points": np.ascontiguousarray(p2), "quadrature_weights": np.asarray(w2) * np.linspace(0.8, 1.3, len(w2))}
+        first = {"vertex+vertex2-ds": vmd, "vertex+custom-ds": vmd, "default+custom-ds": {"quadrature_degree": 2}}[nm]
+        second = {"vertex+vertex2-ds": {"quadrature_rule": "vertex", "quadrature_degree": 2}, "vertex+custom-ds": cmd, "default+custom-ds": cmd}[nm]
+        form = f * v1 * ufl.ds(domain=mesh, metadata=first) + ufl.sin(g) * g * v1 * ufl.ds(domain=mesh, metadata=second)
+    elif nm.startswith("custom"):
+        # user-supplied rules (metadata scheme 'custom'): exactly these points and weights; two rules that share their POINTS but not their
+        # weights (or share them with a built-in rule) are different rules
+        ent = cell if nm.endswith("dx") else None
+        if ent is None:
+            if cell in ("interval", "prism"):
+                raise forms.Inapplicable("custom facet rule: point facets / two facet types")
+            ent = oracle.entity_cellname(cell, d - 1, 0)
+        p2, w2 = basix.make_quadrature(oracle.celltype(ent), 2)
+        p2 = np.ascontiguousarray(p2)
+        wa = np.asarray(w2) * np.linspace(0.7, 1.4, len(w2))
+        wb = np.asarray(w2)[::-1] * np.linspace(1.3, 0.6, len(w2))
+        M = ufl.dx if nm.endswith("dx") else ufl.ds
+        ca = {"quadrature_rule": "custom", "quadrature_points": p2, "quadrature_weights": wa}
+        cb = {"quadrature_rule": "custom", "quadrature_points": p2.copy(), "quadrature_weights": wb}
+        if nm in ("custom-dx", "custom-ds"):
+            form = ufl.exp(f) * g * v1 * M(domain=mesh, metadata=ca)
+        elif nm == "custom-samepts-dx":
+            form = ufl.exp(f) * v1 * M(domain=mesh, metadata=ca) + ufl.sin(g) * f * v1 * M(domain=mesh, metadata=cb)
+        else:
+            form = ufl.exp(f) * v1 * M(domain=mesh, metadata=ca) + ufl.sin(g) * f * v1 * M(domain=mesh, metadata={"quadrature_degree": 2})
     elif nm == "deg2+auto":
         # one integral with an explicit (too low) degree, one without metadata: the latter must get UFL's estimated degree
         form = x[0] ** 2 * v1 * ufl.dx(domain=mesh, metadata={"quadrature_degree": 2}) + x[0] ** 6 * g * v1 * dx
@@ -326,7 +389,7 @@ def named_form(name):
 
 def _dispatch(item):
     try:
-        return {"mono": work_monomials, "pair": work_pair, "form": work_form}[item[0]](item)
+        return {"mono": work_monomials, "pair": work_pair, "form": work_form, "same": work_same}[item[0]](item)
     except forms.Inapplicable:
         return dict(key=str(item[:5]), status="inapplicable", calls=0, maxerr=0.0, failures=[])
 
@@ -360,6 +423,16 @@ def main():
     for cell, it in (("interval", "dx"), ("quadrilateral", "dx"), ("tetrahedron", "dx"), ("triangle", "ds"), ("tetrahedron", "ds"), ("hexahedron", "dx")):
         for q1, q2 in (itertools.permutations([0, 1, 2, 4, 7], 2) if not chk.thorough else itertools.permutations([0, 1, 2, 3, 4, 5, 7, 10, 15, 26, 30], 2)):
             items.append(("pair", cell, q1, q2, it, chk.seed))
+    # the same integrand under two rules of one subdomain: all unordered pairs of a degree set, and named-scheme / vertex-scheme partners
+    dq = [0, 1, 2, 3, 5, 8] if not chk.thorough else [0, 1, 2, 3, 4, 5, 6, 8, 12, 15, 26]
+    for cell, it in (("triangle", "dx"), ("quadrilateral", "dx"), ("tetrahedron", "ds"), ("triangle", "dS")) + ((("interval", "dx"), ("hexahedron", "dx"), ("tetrahedron", "dx"), ("quadrilateral", "dS")) if chk.thorough else ()):
+        for q1, q2 in itertools.combinations(dq if (cell, it) == ("triangle", "dx") or chk.thorough else [1, 2, 4], 2):
+            items.append(("same", cell, {"quadrature_degree": q1}, {"quadrature_degree": q2}, it, chk.seed))
+        ent = cell if it == "dx" else {"triangle": "interval", "quadrilateral": "interval", "tetrahedron": "triangle", "hexahedron": "quadrilateral"}[cell]
+        other = "GLL" if ent in ("interval", "quadrilateral", "hexahedron") else "Gauss-Jacobi"
+        for q in (2, 3):
+            items.append(("same", cell, {"quadrature_degree": q, "quadrature_rule": other}, {"quadrature_degree": q}, it, chk.seed))
+        items.append(("same", cell, {"quadrature_rule": "vertex", "quadrature_degree": 1}, {"quadrature_degree": 4}, it, chk.seed))
     for nm in FORM_NAMES:
         items.append(("form", nm, chk.seed))
     items.sort(key=lambda it: (it[0] == "mono" and TD.get(it[1], 0) == 3, it[2] if it[0] == "mono" else 0), reverse=True)
